@@ -2,6 +2,7 @@
 //! line per case ("<channel> key=value ...") for the model driver.
 mod art;
 mod flags;
+mod probe;
 mod util;
 
 use std::io::Write;
@@ -35,6 +36,7 @@ fn main() {
     match args[1].as_str() {
         "art" => art::run(seed, count, maxn, &mode, &mut out),
         "flags" => flags::run(seed, count, &mut out),
+        "probe" => probe::run(&mode),
         other => {
             eprintln!("unknown channel {other}");
             std::process::exit(2);
